@@ -2,6 +2,7 @@ package c10
 
 import (
 	"context"
+	"errors"
 	"fmt"
 	"sort"
 	"strings"
@@ -121,14 +122,16 @@ type sim struct {
 	peers    []*clus.Peer
 	mons     []*clus.Mon
 	cons     []*clus.MemConsensus
-	labels   map[string]string // cid string -> label
+	labels   map[string]string  // cid string -> label
+	special  map[string]cid.Cid // label -> CID that is not derived from the label (cluster-DAG nodes)
+	blocks   map[string][]byte  // cid string -> block served by every peer's model daemon
 }
 
 // newSim starts n real Cluster peers (identities Key(base..base+n-1)) inside
 // the current bubble, all with the same configuration flags.
 func newSim(t *testing.T, base, n int, disable, follower bool) *sim {
 	s := &sim{t: t, ctx: context.Background(), base: base, n: n, disable: disable, follower: follower,
-		idx: map[peer.ID]int{}, labels: map[string]string{}}
+		idx: map[peer.ID]int{}, labels: map[string]string{}, special: map[string]cid.Cid{}, blocks: map[string][]byte{}}
 	_, s.hosts = clus.NewMocknet(s.ctx, base, n)
 	for i, h := range s.hosts {
 		s.ids = append(s.ids, h.ID())
@@ -139,7 +142,14 @@ func newSim(t *testing.T, base, n int, disable, follower bool) *sim {
 		mc := clus.NewMemConsensus(h.ID(), boot)
 		mc.NoTrack = true
 		mon := clus.NewMon()
-		p, err := clus.NewPeer(s.ctx, &clus.PeerParts{Host: h, Consensus: mc, Monitor: mon, Cfg: func(c *ipfscluster.Config) {
+		model := clus.NewIPFS()
+		model.BlockGetF = func(c cid.Cid) ([]byte, error) {
+			if b, ok := s.blocks[c.String()]; ok {
+				return b, nil
+			}
+			return nil, errors.New("model ipfs: block not found")
+		}
+		p, err := clus.NewPeer(s.ctx, &clus.PeerParts{Host: h, Consensus: mc, Monitor: mon, IPFS: model, Cfg: func(c *ipfscluster.Config) {
 			c.ReplicationFactorMin = 1
 			c.ReplicationFactorMax = 1
 			c.DisableRepinning = disable
@@ -166,7 +176,10 @@ func (s *sim) stop() {
 }
 
 func (s *sim) cidOf(label string) cid.Cid {
-	c := clus.Cid(label)
+	c, ok := s.special[label]
+	if !ok {
+		c = clus.Cid(label)
+	}
 	s.labels[c.String()] = label
 	return c
 }
